@@ -216,7 +216,10 @@ func c11Prop(c *sim.Case) {
 	m := &c11Mon{cur: map[string]*tokSet{}, delivered: map[int]string{}, refreshes: map[string]int{}, lastShape: map[string]string{}}
 	h := ho.build(c, m)
 	defer h.w.Close()
-	c.Logf("world: %v", ho)
+	// a provider that binds each ID token to the access token issued with it (at_hash): a kept ID token then speaks
+	// of an access token that a later refresh has replaced, which is fine
+	h.w.IdP.AtHash = sim.Bool(c, "at_hash")
+	c.Logf("world: %v at_hash=%v", ho, h.w.IdP.AtHash)
 	h.exec(&op{K: "login", B: 0, Target: "/a"})
 	var tags []string
 	for i := 0; i < nsteps; i++ {
